@@ -24,6 +24,9 @@ import common
 ID = "C10"
 LEAN_MODULES = ["QProps.C10"]
 THEOREMS = [
+    "Ops.moveLoop_mem",
+    "Ops.moveLoop_bound",
+    "Ops.ball_move_norm",
     "Ops.ball_norm",
     "Ops.sphere_norm",
     "Ops.box_bounds",
@@ -228,7 +231,15 @@ def gen_disp_op(rng, allow_comp=True, group_ops=True):
     kinds = ["ball", "sphere", "box", "trans"] + (["rot", "transrot"] if group_ops else [])
     if allow_comp and rng.random() < 0.2:
         k = rng.choice([1, 2, 2, 3, 4])
-        return {"kind": "comp", "parts": [gen_disp_op(rng, False, group_ops) for _ in range(k)]}
+        parts = [gen_disp_op(rng, False, group_ops) for _ in range(k)]
+        # the same operation OBJECT several times in one composite (`op * n`, `a + b + a`): same parameters, own draws
+        if k > 1 and rng.random() < 0.4:
+            for j in range(1, k):
+                if rng.random() < 0.6:
+                    src = rng.randrange(j)
+                    src = parts[src].get("same_as", src)
+                    parts[j] = {**parts[src], "same_as": src}
+        return {"kind": "comp", "parts": parts}
     kind = rng.choice(kinds)
     op = {"kind": kind}
     if kind in ("ball", "sphere", "box"):
@@ -281,7 +292,12 @@ def build_disp_op(op):
     if k == "transrot":
         return TranslationRotation()
     if k == "comp":
-        return CompositeOperation([build_disp_op(p) for p in op["parts"]])
+        objs = []
+        for p in op["parts"]:
+            objs.append(objs[p["same_as"]] if "same_as" in p else build_disp_op(p))
+        if len(objs) > 1 and all(o is objs[0] for o in objs):
+            return objs[0] * len(objs)          # the `op * n` spelling
+        return CompositeOperation(objs)
     raise ValueError(k)
 
 
@@ -876,5 +892,159 @@ class ProposalSymmetry(common.Suite):
         return case["op"]["kind"]
 
 
+# --------------------------------------------------------------------------- suite 4: the move's retry loop
+
+
+class MoveRetry(common.Suite):
+    """what `DisplacementMove.attempt_displacement` finally applies when `check_move` vetoes attempts: the translation of
+    ONE proposal (model: `Ops.moveLoop`, theorems `moveLoop_mem` / `moveLoop_bound` / `ball_move_norm`)"""
+
+    name = "move-retry-loop"
+
+    def cases(self, rng, tier):
+        k = 300 if tier == "quick" else 6000
+        forced = ["ball", "sphere", "box", "trans", "rot", "transrot"]
+        for i in range(k):
+            cell = gen_cell(rng)
+            pos, numbers, moving, geom = gen_structure(rng, cell)
+            op = gen_disp_op(rng, allow_comp=False)
+            if i < 2 * len(forced):
+                op = {"kind": forced[i % 6]}
+                if op["kind"] in ("ball", "sphere", "box"):
+                    op["s"] = loguniform(rng, 1e-6, 1e3)
+            m = rng.choice([1, 2, 3, 3, 4, 6])
+            nveto = rng.choice([0, 1, 1, 2, 3, m, m])
+            nveto = min(nveto, m)
+            attempts = min(nveto + 1, m)
+            draws = []
+            for _ in range(attempts):
+                draws += gen_draws(rng, draw_pattern(op))
+            yield {"op": op, "cell": cell, "pos": pos, "numbers": numbers, "moving": moving, "geom": geom,
+                   "masses": masses_of(numbers), "moving_array": rng.random() < 0.5, "mode": "scripted",
+                   "draws": draws, "max_attempts": m, "nveto": nveto, "attempts": attempts,
+                   "checks": "0" * nveto + "1" * (m - nveto)}
+
+    def real(self, case):
+        import numpy as np
+        import quansino.mc  # noqa: F401
+        from quansino.mc.contexts import DisplacementContext
+        from quansino.moves.displacement import DisplacementMove
+
+        atoms = make_atoms(case)
+        rng = make_rng(case)
+        ctx = DisplacementContext(atoms, rng)
+        ctx._moving_indices = np.array(case["moving"]) if case.get("moving_array") else list(case["moving"])
+        move = DisplacementMove(np.zeros(len(atoms), dtype=int), operation=build_disp_op(case["op"]))
+        move.max_attempts = case["max_attempts"]
+        verdicts = iter(c == "1" for c in case["checks"])
+        seen = []
+
+        def check(*_a, **_k):
+            seen.append(atoms.get_positions())
+            return next(verdicts)
+
+        move.check_move = check
+        before = atoms.get_positions()
+        try:
+            ok = move.attempt_displacement(ctx)
+        except BrokenTie as e:
+            return {"broken": str(e)}
+        except Exception as e:  # noqa: BLE001
+            return {"exception": type(e).__name__, "message": str(e)[:200]}
+        d = atoms.get_positions() - before
+        others = [i for i in range(len(atoms)) if i not in case["moving"]]
+        return {"ok": bool(ok), "disp": flat(d[case["moving"]]),
+                "others": float(np.abs(d[others]).max()) if others else 0.0,
+                "per_attempt": [flat((q - before)[case["moving"]]) for q in seen],
+                "consumed": rng.pos, "checks_called": len(seen)}
+
+    def model_lines(self, case):
+        draws = list(case["draws"])
+        toks = ["ops", "loop", str(case["max_attempts"]), case["checks"]]
+        helper = DisplacementOps()
+        for _ in range(case["attempts"]):
+            toks += ["|", *helper.op_tokens(case, case["op"], draws)]
+        return [" ".join(toks)]
+
+    def model_obs(self, case, outs):
+        w = outs[0].split()
+        if w[0] == "none":
+            return {"ok": False}
+        if w[0] != "ok":
+            return {"result": " ".join(w)}
+        return {"ok": True, "out": common.lf(w[1])}
+
+    def tol(self, case):
+        sc = DisplacementOps().scale(case)
+        pm = max(abs(x) for p in case["pos"] for x in p)
+        return 1e-9 * sc + 16 * 2.3e-16 * max(pm, sc)
+
+    def compare(self, case, real, model):
+        if "broken" in real:
+            return [f"generator protocol: {real['broken']}"]
+        if "result" in model:
+            return [f"model says {model['result']!r}"]
+        if "exception" in real:
+            return [f"real raised {real['exception']}: {real['message']}"]
+        d = []
+        if real["ok"] != model["ok"]:
+            d.append(f"success: real={real['ok']} model={model['ok']}")
+        n = len(case["moving"])
+        want = [0.0] * (3 * n)
+        if model["ok"]:
+            out = model["out"]
+            want = out * n if len(out) == 3 else out
+        tol = self.tol(case)
+        if len(want) != len(real["disp"]):
+            return [*d, f"shape: real {len(real['disp'])} model {len(want)}"]
+        for i, (a, b) in enumerate(zip(real["disp"], want)):
+            if abs(a - b) > tol:
+                d.append(f"applied displacement[{i}]: real={a!r} model={b!r}")
+        if real["checks_called"] != case["attempts"]:
+            d.append(f"check_move calls: real={real['checks_called']} model={case['attempts']}")
+        if real["consumed"] != len(case["draws"]):
+            d.append(f"draws consumed: real={real['consumed']} model={len(case['draws'])}")
+        return d[:6]
+
+    def oracle(self, case, obs):
+        import numpy as np
+
+        if "broken" in obs:
+            return []
+        kind = case["op"]["kind"]
+        if "exception" in obs:
+            return [(f"move:{kind}:exception:{obs['exception']}", obs["message"])]
+        fails = []
+        tol = self.tol(case)
+        if obs["others"] != 0.0:
+            fails.append((f"move:{kind}:bystander-moved", f"an atom outside the moving group moved by {obs['others']!r}"))
+        d = np.array(obs["disp"], float).reshape(-1, 3)
+        if not obs["ok"]:
+            if np.any(d != 0.0):
+                fails.append((f"move:{kind}:failed-move-left-displacement", f"{d.tolist()}"))
+            return fails
+        # every state shown to check_move, and the final one, is ONE proposal away from the start
+        for tag, dd in [*[(f"attempt {i}", np.array(x, float).reshape(-1, 3)) for i, x in enumerate(obs["per_attempt"])],
+                        ("final", d)]:
+            if kind in ("ball", "sphere", "box"):
+                s = case["op"]["s"]
+                r = np.linalg.norm(dd, axis=1)
+                if kind == "ball" and np.any(r > s + tol):
+                    fails.append(("move:ball:norm-exceeds-step", f"{tag}: |d|={r.max()!r} > s={s!r}"))
+                if kind == "sphere" and np.any(np.abs(r - s) > tol):
+                    fails.append(("move:sphere:norm-not-step", f"{tag}: |d|={r.tolist()!r} s={s!r}"))
+                if kind == "box" and np.any(np.abs(dd) > s + tol):
+                    fails.append(("move:box:component-out-of-bounds", f"{tag}: d={dd.tolist()} s={s!r}"))
+            if kind in ("ball", "sphere", "box", "trans") and np.max(np.abs(dd - dd[0])) > tol:
+                fails.append((f"move:{kind}:group-not-moved-rigidly", f"{tag}: {dd.tolist()}"))
+        return fails[:4]
+
+    def classify(self, case, obs):
+        if "broken" in obs:
+            return f"retry:{case['op']['kind']}:broken-tie"
+        v = "none" if case["nveto"] == 0 else "all" if case["nveto"] >= case["max_attempts"] else "some"
+        return f"retry:{case['op']['kind']}:vetoed={v}:{'n=1' if len(case['moving']) == 1 else 'n>1'}"
+
+
 def suites(tier):
-    return [DisplacementOps(), DeformationOps(), ProposalSymmetry()]
+    return [DisplacementOps(), DeformationOps(), ProposalSymmetry(), MoveRetry()]
